@@ -136,6 +136,18 @@ static void tramp(void *cookie)
 		e->used = 0;
 }
 
+/* the library's close() calls: a scheduling point (another thread may be handed the same descriptor number right after), and a close of a
+ * number that is not open is logged: the library closed something it does not own (e.g. the same descriptor twice) */
+int __wrap_close(int fd)
+{
+	int r;
+	mt_yield();
+	r = close(fd);
+	if (r < 0 && errno == EBADF)
+		mt_log("CLOSE-EBADF fd=%d\n", fd);
+	return r;
+}
+
 int __wrap_pipe(int fd[2])
 {
 	int r = pipe(fd);
